@@ -472,6 +472,21 @@ def inline_helpers(tree, ref_units):
         mapping = _bind(fn, call, mk)
         if mapping is None:
             return None
+        # an argument that reads an attribute some function stores (MUTABLE_ATTRS) and whose parameter is read more than once is evaluated ONCE, as the call
+        # did: it is bound to the parameter's name in front of the body instead of being substituted at every read
+        prelude = []
+        reads_ = {}
+        for st_ in body + ([ast.Expr(value=ret)] if ret is not None else []):
+            for x in ast.walk(st_):
+                if isinstance(x, ast.Name) and isinstance(x.ctx, ast.Load):
+                    reads_[x.id] = reads_.get(x.id, 0) + 1
+        for p_, v_ in list(mapping.items()):
+            attrs_ = {x.attr for x in ast.walk(v_) if isinstance(x, ast.Attribute)}
+            if attrs_ and reads_.get(p_, 0) > 1 and ("*" in MUTABLE_ATTRS or attrs_ & MUTABLE_ATTRS) and not (mk in ("self", "cls") and v_ is mapping.get(fn.args.args[0].arg)):
+                if caller_fn is not None and p_ in _bound_names(caller_fn) and not _dead_at(caller_fn, call, p_):
+                    return None
+                prelude.append(ast.Assign(targets=[ast.Name(id=p_, ctx=ast.Store())], value=copy.deepcopy(v_), type_comment=None))
+                del mapping[p_]
         # parameters that the helper rebinds cannot be substituted
         stored = {x.id for st in body for x in ast.walk(st) if isinstance(x, ast.Name) and isinstance(x.ctx, (ast.Store, ast.Del))}
         rebound = stored & set(mapping)
@@ -500,7 +515,7 @@ def inline_helpers(tree, ref_units):
         if clash and caller_fn is not None:
             clash = {v for v in clash if not _dead_at(caller_fn, call, v)}
         ren = {x: ast.Name(id=f"{x}__{name}", ctx=ast.Load()) for x in clash}
-        new_body = []
+        new_body = [_relocate(ast.fix_missing_locations(ast.copy_location(a_, call)), call) for a_ in prelude]
         for st in body:
             st2 = copy.deepcopy(st)
             if unify:
@@ -642,6 +657,7 @@ def _elif_tests(st):
     return out
 
 
+MUTABLE_ATTRS = {"*"}      # set by the index: attribute names stored anywhere outside __init__ ("*": unknown — everything counts as mutable)
 PURE_NAMES = set()          # set by the index before normalisation: repo functions that are trivial getters under every definition of the name
 _PURE_BUILTINS = {"len", "isinstance", "min", "max", "abs", "bool"}
 
@@ -663,6 +679,13 @@ def _impure(expr):
 
 def _calm_until_last(stmt, uses):
     """nothing impure is evaluated in `stmt` before the last of `uses` (source position; calls that contain a use run after it)"""
+    if isinstance(stmt, ast.If):
+        tests = _elif_tests(stmt)
+        if all(any(u is x for t in tests for x in ast.walk(t)) for u in uses):
+            # all reads are in the tests of the if / elif ladder: the arms' bodies do not run before a later test
+            last = max((getattr(u, "lineno", 0), getattr(u, "col_offset", 0)) for u in uses)
+            return not any((isinstance(x, ast.Await) or (isinstance(x, ast.Call) and not _pure_call(x))) and
+                           (getattr(x, "lineno", 0), getattr(x, "col_offset", 0)) < last for t in tests for x in ast.walk(t))
     for c in ast.walk(stmt):
         for ch in ast.iter_child_nodes(c):
             ch._up = c
@@ -773,7 +796,14 @@ def inline_temporaries(fn, ref_names, keep=()):
                         attrs = {x.attr for x in ast.walk(st.value) if isinstance(x, ast.Attribute)}
                         stored_attr = any(isinstance(x, ast.Attribute) and isinstance(x.ctx, (ast.Store, ast.Del)) and x.attr in attrs for x in ast.walk(fn))
                         awaits = any(isinstance(x, (ast.Await, ast.Yield, ast.YieldFrom)) for s2 in rest for x in ast.walk(s2))
-                        ok = len(inside) == len(uses) and not rebound and not stored_attr and not awaits
+                        # ... or under a call that stores it: an attribute that some function of the repo stores outside __init__ is read where the reference
+                        # reads it unless nothing impure runs between the binding and the last read
+                        volatile = "*" in MUTABLE_ATTRS or bool(attrs & MUTABLE_ATTRS)
+                        quiet = True
+                        if volatile:
+                            last_stmt = max((k for k, s2 in enumerate(rest) if any(any(u is x for x in ast.walk(s2)) for u in uses)), default=-1)
+                            quiet = all(not _impure(s2) for s2 in rest[:last_stmt]) and (last_stmt < 0 or _calm_until_last(rest[last_stmt], [u for u in uses if any(u is x for x in ast.walk(rest[last_stmt]))]))
+                        ok = len(inside) == len(uses) and not rebound and not stored_attr and not awaits and quiet
                     else:
                         ok = len(inside) == len(uses) and not rebound
                 if not ok:
